@@ -373,7 +373,7 @@ def _stmt_starts(toks, lo, hi):
         prev = t.text if t.kind == 'punct' else 'x'
     return starts
 
-def assemble_fn(repo, fs, record):
+def assemble_fn(repo, fs, record, canary=None):
     path = os.path.join(repo, fs.file)
     try:
         src = open(path).read()
@@ -462,8 +462,36 @@ def assemble_fn(repo, fs, record):
         inserts.append((toks[bc].start, '\n'.join(fs.atend) + '\n', 'HINT'))
     if fs.bodyprefix:
         inserts.append((toks[bo].end, '\n    ' + fs.bodyprefix + '\n', 'HINT'))
+    CAN = ' proof { assert(false); } /*CANARY*/ '
+    n_canaries = 0
+    if canary == 'start':
+        inserts.append((toks[bo].end, CAN, 'CANARY')); n_canaries = 1
+    elif canary == 'end':
+        # before the last top-level statement of the body
+        depth = 0; top = []
+        prev = '{'
+        for i in range(bo + 1, bc):
+            t = toks[i]
+            if depth == 0 and prev in ('{', ';', '}'):
+                top.append(i)
+            if t.kind == 'punct' and t.text in OPEN: depth += 1
+            elif t.kind == 'punct' and t.text in CLOSE: depth -= 1
+            prev = t.text if (t.kind == 'punct' and depth == 0) else 'x'
+        if top:
+            inserts.append((toks[top[-1]].start, CAN, 'CANARY')); n_canaries = 1
+    elif canary == 'loops':
+        for li in loop_idx:
+            j = li + 1
+            while j < bc:
+                if toks[j].text in ('(', '['): j = match_close(toks, j) + 1; continue
+                if toks[j].text == '{': break
+                j += 1
+            inserts.append((toks[j].end, CAN, 'CANARY')); n_canaries += 1
     # apply inserts, building a line-origin map
-    inserts.sort(key=lambda x: x[0])
+    order = {'A1': 0, 'A4': 0, 'SPEC': 1, 'LOOPSPEC': 1, 'HINT': 3, 'CANARY': 4}
+    inserts = [(off, order.get(tag.split(':')[0], 2), k, ins, tag) for k, (off, ins, tag) in enumerate(inserts)]
+    inserts.sort()
+    inserts = [(off, ins, tag) for off, _, _, ins, tag in inserts]
     pieces = []   # (text, tag)
     last = 0
     for off, ins, tag in inserts:
@@ -472,7 +500,7 @@ def assemble_fn(repo, fs, record):
         last = off
     pieces.append((text[last:], 'CODE'))
     record.append({'fn': (fs.within + '::' if fs.within else '') + fs.name, 'file': fs.file, 'line': line0,
-                   'sha256': sha, 'rules': fired, 'n_loops': len(loop_idx)})
+                   'sha256': sha, 'rules': fired, 'n_loops': len(loop_idx), 'n_canaries': n_canaries})
     return pieces
 
 # ---------------------------------------------------------------- template driver
@@ -492,7 +520,7 @@ def build_unit(verif, repo, template_path, canary=False):
     out = []      # list of (text, tag, origin)
     def emit(text, tag, origin):
         out.append((text, tag, origin))
-    state = {'bodyprefix': None}
+    state = {'bodyprefix': None, 'mods': []}
     def process(path, depth=0):
         if depth > 5: raise ExtractError('include depth')
         lines = open(path).read().split('\n')
@@ -503,6 +531,13 @@ def build_unit(verif, repo, template_path, canary=False):
             ln = lines[i]
             s = ln.strip()
             if not s.startswith('//@'):
+                mm = re.match(r'^(pub(\([a-z]+\))?\s+)?mod\s+(\w+)\s*\{\s*$', s)
+                if mm and depth == 0: state['mods'].append(mm.group(3))
+                mm = re.match(r'^\}\s*//\s*mod\s+(\w+)', s)
+                if mm and depth == 0:
+                    if not state['mods'] or state['mods'][-1] != mm.group(1):
+                        raise ExtractError('%s:%d unbalanced mod marker' % (rel, i + 1))
+                    state['mods'].pop()
                 emit(ln + '\n', 'TPL', '%s:%d' % (rel, i + 1)); i += 1; continue
             d = s[3:].strip()
             if not d or d.startswith('#'):
@@ -597,15 +632,12 @@ def build_unit(verif, repo, template_path, canary=False):
                     else:
                         cur.append(lines[i])
                     i += 1
-                pieces = assemble_fn(repo, fs, u.functions)
+                pieces = assemble_fn(repo, fs, u.functions, canary)
+                u.functions[-1]['fn'] = '::'.join(state['mods'] + [u.functions[-1]['fn']])
+                u.functions[-1]['template'] = '%s:%d' % (rel, fs.tline)
+                u.functions[-1]['n_spec_lines'] = len([l for l in fs.spec if l.strip()])
+                u.functions[-1]['n_hint_blocks'] = len(fs.before)
                 fname = u.functions[-1]['fn']
-                if canary:
-                    # append assert(false) before the final closing brace of the fn
-                    txt, tag = pieces[-1]
-                    k = txt.rstrip().rfind('}')
-                    pieces[-1] = (txt[:k], tag)
-                    pieces.append(('proof { assert(false); } // CANARY\n', 'CANARY'))
-                    pieces.append((txt[k:], tag))
                 for txt, tag in pieces:
                     origin = '%s:%d' % (fs.file, u.functions[-1]['line']) if tag == 'CODE' else '%s:%d' % (rel, fs.tline)
                     emit(txt, tag + '|' + fname, origin)
